@@ -107,8 +107,7 @@ class World:
                 for kind, suffix in (("copy", "c"), ("deep", "d"), ("pickle", "p")):
                     if alphabet.get(kind, True) and s + suffix not in self.slots:
                         ops.append((kind, s, s + suffix))
-                if alphabet.get("pickle_proc") and s + "q" not in self.slots:
-                    ops.append(("pickle_proc", s, s + "q"))
+
         for s in sorted(self.slots):
             ops.append(("init", s))
             if alphabet.get("doc", True):
@@ -128,6 +127,9 @@ class World:
                 ops += [("move", s), ("clone", s)]
             if alphabet.get("reopen", True) and self.model_job(s) is not None:
                 ops.append(("reopen", s))
+            if alphabet.get("pickle_proc") and len(s) == 1:
+                # the handle is pickled into a freshly started process, which performs one operation with it
+                ops += [("proc", s, "init"), ("proc", s, "doc_set"), ("proc", s, "sp_set_b"), ("proc", s, "remove")]
         if alphabet.get("cache", True):
             ops.append(("update_cache",))
         if alphabet.get("newproject", True):
@@ -154,7 +156,7 @@ class World:
             caller.clear()  # later mutation of the caller's mapping must not matter
             self.group_of[slot] = self._new_group("P", sp)
             return False
-        if name in ("copy", "deep", "pickle", "pickle_proc"):
+        if name in ("copy", "deep", "pickle"):
             _, src, dst = op
             job = self.slots[src]
             g = self.g(src)
@@ -165,10 +167,8 @@ class World:
                     new = copy.copy(job)
                 elif name == "deep":
                     new = copy.deepcopy(job)
-                elif name == "pickle":
-                    new = pickle.loads(pickle.dumps(job))
                 else:
-                    new = pickle.loads(_pickle_in_fresh_process(pickle.dumps(job)))
+                    new = pickle.loads(pickle.dumps(job))
             except BaseException as e:  # noqa
                 raise Unexpected(f"{name}-raises", f"{name} of handle {src} raised {type(e).__name__}: {e}",
                                  handle_has_live_shallow_copy=has_copy, exc=type(e).__name__)
@@ -356,6 +356,38 @@ class World:
                 return True
             run(lambda: dst.clone(job))
             self.jobs["Q"][jid] = copy.deepcopy(mj)
+        elif name == "proc":
+            what = op[2]
+            has_copy = sum(1 for x in self.group_of.values() if x == grp) > 1
+            try:
+                blob = pickle.dumps(job)
+            except BaseException as e:  # noqa
+                raise Unexpected("pickle-raises", f"pickling handle {slot} raised {type(e).__name__}: {e}",
+                                 handle_has_live_shallow_copy=has_copy, exc=type(e).__name__)
+            status, detail = _run_in_fresh_process(blob, what)
+            if status != "ok":
+                raise Unexpected("pickle-raises" if status == "unpickle" else "operation-raises",
+                                 f"in a fresh process: {status} of handle {slot} failed with {detail}",
+                                 handle_has_live_shallow_copy=has_copy, exc=detail.split(":")[0], op="proc-" + what)
+            # the other process is an independent handle on the same job
+            if what == "init":
+                self._ensure_model_job(slot)
+            elif what == "doc_set":
+                m = self._ensure_model_job(slot)
+                m["doc"]["x"] = m["doc"].get("x", 0) + 1
+            elif what == "remove":
+                self.jobs[proj].pop(jid, None)
+                self._invalidate_others(None, proj, jid)
+            elif what == "sp_set_b":
+                new = _jcopy(g["sp"])
+                new["b"] = 2
+                new_id = canon.job_id(new)
+                if new_id != jid:
+                    if mj is not None:
+                        self.jobs[proj].pop(jid)
+                        mj["sp"] = new
+                        self.jobs[proj][new_id] = mj
+                    self._invalidate_others(None, proj, jid)
         elif name == "reopen":
             p = self.signac.Project(self.paths[proj])
             holder = {}
@@ -520,15 +552,31 @@ def _cache_digest(fn):
         return b"?"
 
 
-def _pickle_in_fresh_process(blob):
-    """Unpickle + re-pickle in a freshly started interpreter (the handle travels through another process)."""
+def _run_in_fresh_process(blob, what):
+    """Unpickle the handle in a freshly started interpreter and perform one operation there.
+    Returns ("ok", "") | ("unpickle", "<Exc>: msg") | ("operation", "<Exc>: msg")."""
     import subprocess
     import sys
 
-    code = ("import sys,pickle; o=pickle.loads(sys.stdin.buffer.read()); "
-            "sys.stdout.buffer.write(pickle.dumps(o))")
-    r = subprocess.run([sys.executable, "-c", code], input=blob, capture_output=True,
-                       env=dict(os.environ), timeout=120)
-    if r.returncode != 0:
-        raise RuntimeError("fresh process failed: " + r.stderr.decode()[-400:])
-    return r.stdout
+    code = (
+        "import sys, pickle\n"
+        "try:\n"
+        "    job = pickle.loads(sys.stdin.buffer.read())\n"
+        "except BaseException as e:\n"
+        "    print('unpickle|%s: %s' % (type(e).__name__, str(e)[:200])); sys.exit(0)\n"
+        "try:\n"
+        "    what = sys.argv[1]\n"
+        "    if what == 'init': job.init()\n"
+        "    elif what == 'doc_set': job.doc['x'] = job.doc.get('x', 0) + 1\n"
+        "    elif what == 'remove': job.remove()\n"
+        "    elif what == 'sp_set_b': job.sp['b'] = 2\n"
+        "    print('ok|')\n"
+        "except BaseException as e:\n"
+        "    print('operation|%s: %s' % (type(e).__name__, str(e)[:200]))\n"
+    )
+    r = subprocess.run([sys.executable, "-c", code, what], input=blob, capture_output=True, env=dict(os.environ), timeout=120)
+    out = r.stdout.decode(errors="replace").strip().splitlines()
+    if r.returncode != 0 or not out:
+        return "operation", "ProcessError: " + r.stderr.decode(errors="replace")[-300:]
+    status, _, detail = out[-1].partition("|")
+    return status, detail
